@@ -221,6 +221,10 @@ def run(ctx):
     from .centers import check_fchk_basis_block
 
     check_fchk_basis_block(ctx, "R17")
+    ctx.rule("R18", "WFN: centre, type and exponent lists written for the de-contracted basis carry the format's numbering and are regrouped by the reader into the same primitives (evaluated)", "type numbers restart per shell or skip an absent angular momentum: the coefficients are read for other Cartesian functions")
+    from .centers import check_wfn_primitive_lists
+
+    check_wfn_primitive_lists(ctx, "R18")
     ctx.rule("R11", "segmentation before writing keeps every contraction, in order (evaluated)", "an SP / PS / general contraction is re-ordered or merged on the way to the file while the coefficient rows stay where they were")
     check_segmentation(ctx, "R11", "R11")
     ctx.rule("R9", "written coefficient rows are signs[r] x rows[permutation[r]] (symbolic evaluation of the writer expressions)", "signs are attached to the rows before they are moved (or the permutation is applied twice / on the wrong axis): coefficients of sign-flipped functions change sign or position")
